@@ -646,6 +646,76 @@ async fn run_clones_outage_late(addr: SocketAddr, certs: Certs, id: u64, timeout
     Ok((calls, l.received, l.sent))
 }
 
+/// The application abandons a call (drops the `request()` future: its own timeout, a `select!`, a cancelled task) after
+/// the request went out and before the reply came back, then issues the next call on the same handle. The abandoned
+/// call's reply arrives while that next call is waiting — and must not be handed to it.
+async fn run_abandoned_calls(addr: SocketAddr, certs: Certs, id: u64, timeout_ms: u64) -> std::result::Result<(Vec<Call>, u64, u64), String> {
+    let topic = unique_topic("c04a", id);
+    let log = Arc::new(Mutex::new(ReplierLog { received: 0, sent: 0, prompt_sent: HashMap::new() }));
+    let (_raw, rep_task) = spawn_replier(addr, &certs, &topic, None, timeout_ms, log.clone()).await.map_err(|e| format!("raw replier: {e}"))?;
+    let client = lib_client(&addr.to_string(), &certs, None).await.map_err(|e| format!("connect: {e}"))?;
+    let t0 = Instant::now();
+    let mut calls = vec![];
+    let mut rq = client.requestor(&topic).with_request_encoder(StringCodec).with_reply_decoder(StringCodec).with_request_timeout(timeout_ms).map_err(|e| e.to_string())?.open().await.map_err(|e| format!("open requestor: {e}"))?;
+    let mut est = false;
+    for n in 0..40 {
+        if let Ok(v) = rq.request(format!("sentinel-{};mode=now;", n)).await {
+            if v.starts_with("re:sentinel") {
+                est = true;
+                break;
+            }
+        }
+        tokio::time::sleep(Duration::from_millis(50)).await;
+    }
+    if !est {
+        return Err("precondition not reached: sentinel never answered".into());
+    }
+    let mut handles = vec![rq.clone(), rq];
+    for round in 0..6 {
+        for (h, c) in handles.iter_mut().enumerate() {
+            // the scripted replier answers mode=short after 5 + (7·len mod timeout/6) ms: pad to the longest delay
+            let mut a = format!("abandoned-r{}h{};mode=short;", round, h);
+            let per = (timeout_ms / 6).max(1) as usize;
+            while (a.len() * 7) % per < per - 8 && a.len() < 400 {
+                a.push('p');
+            }
+            let abandon_after = 6 + (round as u64 % 3) * 4;
+            let _ = tokio::time::timeout(Duration::from_millis(abandon_after), c.request(a)).await;
+            // the next call on the same handle is never answered by the replier: it may only time out
+            let payload = format!("after-abandon-r{}h{};mode=never;", round, h);
+            let start = t0.elapsed().as_millis();
+            let r = tokio::time::timeout(Duration::from_millis(timeout_ms + 20_000), c.request(payload.clone())).await;
+            let end = t0.elapsed().as_millis();
+            let (result, timed_out) = match r {
+                Ok(Ok(v)) => (Ok(v), false),
+                Ok(Err(e)) => {
+                    let t = is_timeout(&e);
+                    (Err(e.to_string()), t)
+                }
+                Err(_) => (Err("HUNG: request() did not return within timeout + 20 s".into()), false),
+            };
+            calls.push(Call { id: payload, mode: Mode::Never, requestor: format!("handle{}", h), start_ms: start, end_ms: end, result, timed_out });
+            // and a normal call afterwards
+            let payload = format!("normal-r{}h{};mode=now;", round, h);
+            let start = t0.elapsed().as_millis();
+            let r = tokio::time::timeout(Duration::from_millis(timeout_ms + 20_000), c.request(payload.clone())).await;
+            let end = t0.elapsed().as_millis();
+            let (result, timed_out) = match r {
+                Ok(Ok(v)) => (Ok(v), false),
+                Ok(Err(e)) => {
+                    let t = is_timeout(&e);
+                    (Err(e.to_string()), t)
+                }
+                Err(_) => (Err("HUNG: request() did not return within timeout + 20 s".into()), false),
+            };
+            calls.push(Call { id: payload, mode: Mode::Now, requestor: format!("handle{}", h), start_ms: start, end_ms: end, result, timed_out });
+        }
+    }
+    rep_task.abort();
+    let l = log.lock().unwrap();
+    Ok((calls, l.received, l.sent))
+}
+
 /// child-process server (this binary in `--serve` mode, i.e. `Server::try_from(args)?.listen()` like main.rs)
 struct ChildServer {
     child: std::process::Child,
@@ -899,6 +969,13 @@ pub fn run(rep: &mut StageReport, tier: &str, seed: u64, exe: &str) {
             out.push((2000 + g as u64, match r {
                 Ok(x) => x,
                 Err(_) => Err("watchdog: clone-after-use scenario did not finish within 600 s".into()),
+            }));
+        }
+        for g in 0..(if thorough { 6usize } else { 1 }) {
+            let r = tokio::time::timeout(Duration::from_secs(600), run_abandoned_calls(server.addr, certs.clone(), 6000 + g as u64, 400)).await;
+            out.push((6000 + g as u64, match r {
+                Ok(x) => x,
+                Err(_) => Err("watchdog: abandoned-calls scenario did not finish within 600 s".into()),
             }));
         }
         for g in 0..(if thorough { 10usize } else { 2 }) {
